@@ -951,7 +951,7 @@ package gorm
 //@ site derived-sessions-keep-the-callers-context
 //@   match call gorm.(*DB).Session
 //@   in callbacks.* gorm.(*Association).* gorm.(*DB).* migrator.(Migrator).*
-//@   not-in gorm.(*DB).WithContext
+//@   not-in gorm.(*DB).WithContext gorm.(*DB).Debug
 //@   min-sites 10
 //@   assert no-foreign-context: arg1.Context == nil || arg1.Context == arg0.Statement.Context [C18]
 
